@@ -33,6 +33,14 @@ extern "C" void vp_thr_worker(thread_data* td, int tid) {
 }
 // run the delegated task on the calling thread's current dispatcher (r1::wait stub of the E-side harness: the entrant got a slot and runs its dispatch loop)
 extern "C" void vp_dt_execute(d1::task* t, thread_data* td) { static_cast<delegated_task*>(t)->delegated_task::execute(td->my_task_dispatcher->m_execute_data_ext); }
+// SIDE 1 r1::wait stub: the entrant runs its own delegated task inline. Same effects as delegated_task::execute/finalize except the monitor
+// notification (nobody can be waiting for this delegate: its only waiter is the thread running it); the real finalize is SIDE 2.
+extern "C" void vp_dt_run_inline(d1::task* t) {
+  delegated_task* dt = static_cast<delegated_task*>(t);
+  dt->m_delegate();
+  dt->m_wait_ctx.release();
+  dt->m_completed.store(true, std::memory_order_release);
+}
 // E-side harness (nested_arena_context ctor/dtor cut): the leave sequence of ~nested_arena_context, used by the dtor stub and by the leaving occupant
 extern "C" void vp_leave_slot(arena* a, unsigned i) { a->my_slots[i].release(); a->my_exit_monitors.notify_one(); }
 extern "C" void vp_thr_leaver2(arena* a, int slot, int tid) {
